@@ -40,6 +40,12 @@ CHECKS = {
         text="Exhaustive within the bound: every legal Rust identifier of length <=4 (quick) / <=5 (thorough) over {ASCII lower, ASCII upper, digit, underscore, non-ASCII lower, non-ASCII upper, sharp s} x 8 rules x {struct field, enum variant} (+ struct-variant fields via rename_all_fields and via the variant's own rename_all). TLC checks name_ts = name_serde on the transcriptions and on the names produced by the real derive and by the real serde_derive routine.",
         note="Trusted: TLC; the regular expressions that read a property name / variant literal out of the expansion (a failure to read is a tool error); serde_derive's source in the offline registry is the oracle. Identifiers on which serde_derive itself panics are outside the domain.",
         design_ref="DESIGN.md section 5 (C09), 3.7"),
+    "C16": dict(
+        category="model_checking",
+        technique="TLA+ transcription of the attribute tables, merge rules, assert_validity clauses and shape dispatch (Attrs.tla); TLC grows items attribute by attribute and predicts Accept / Reject / RejectAtTypeck; every item expanded in-process by the real derive under catch_unwind; accepted items compiled by rustc; rejected sample through the real proc-macro entry point; verdicts by TLC (Trace_Attrs.tla); case-conversion panics via Inflection.tla",
+        text="~39k (quick) distinct items = {struct, enum} x 6 field shapes x subsets of attribute palettes at container/variant/field level (valid keys, unknown keys, wrong value forms, ts and serde spellings) are TLC states; each is run through the real derive: never a panic; everything the documentation/validity clauses call invalid is diagnosed (derive error or rustc error); accepted items compile, `optional` on a non-Option fails with the IsOption diagnostic; rejected items produce ordinary compile errors through the real entry point; plus every identifier x rule of the C09 domain never panics. Outcome class predicted by the transcription for every item (drift = 0 on the unchanged tree).",
+        note="Trusted: TLC, rustc, the item renderer. Known findings KF-C16-1/2 (bodies of overridden containers / skipped variants are not validated) are recorded in known_findings.json. Generics, where-clauses and raw/keyword identifiers inside items are not generated yet.",
+        design_ref="DESIGN.md section 5 (C16), 3.3, appendix E"),
 }
 
 NOT_YET = "check not built yet (work in progress, see DESIGN.md appendix B)"
